@@ -21,7 +21,11 @@ THEOREMS = [f"NumbersModel.Props.C13.{t}" for t in (
     # custom number patterns (Model/CustomFmt.lean)
     "format_types_as_modelled", "custom_percent_scale", "custom_digits_read_back", "custom_sign", "custom_number_text_alphabet",
     "custom_literals_pass_through", "custom_padding_only_pads", "custom_total", "custom_builder_well_formed",
-    "custom_api_total", "custom_scientific", "custom_dispatch")]
+    "custom_api_total", "custom_scientific", "custom_dispatch")] + [f"NumbersModel.Props.C13.Src.{t}" for t in (
+    # the same clauses over _twos_complement / _format_fraction_parts_to as py2lean regenerates them from cell.py
+    "src_twos_complement_value", "src_fraction_parts_normal_form")] + [f"NumbersModel.Translated.{t}" for t in (
+    "twos_complement_eq_model", "format_fraction_parts_to_eq_model", "invert_eq")]
+TRANSLATED_GROUPS = ("NumFmt",)
 PARTIAL = {}   # fraction_ndigit and scientific_mantissa are now proved in full (Lemmas/LimitDen.lean, Lemmas/SciFmt.lean)
 RULE = ("every case is one (value, format) pair sent through Table.write + Table.set_cell_formatting + Cell.formatted_value "
         "and through the model; special values (ties at every place 0..10, carries, powers of ten +-1 unit in the 15th digit, "
@@ -51,11 +55,17 @@ MANIFEST = {
             "replaced inside it), custom_padding_only_pads, custom_total + custom_builder_well_formed + custom_api_total (no "
             "exception for any value and any archive the library's own builder can produce; explicit well-formedness "
             "predicate otherwise), custom_dispatch; third-party sigfig / float formatting / float products enter as stated "
-            "assumptions exercised by the correspondence on every run.",
+            "assumptions exercised by the correspondence on every run. _invert_bit_str, _twos_complement and "
+            "_format_fraction_parts_to are additionally TRANSLATED from cell.py on every run (harness/py2lean.py -> "
+            "Gen/TrNumFmt.lean): the character-level two's-complement code (bit string, inversion, rjust with ones, int(.,2)+1, "
+            "bin/oct/hex) is proved equal to the arithmetic model 2^bits - a for every a >= 1 (twos_complement_eq_model), and the "
+            "two clauses are restated over the translated definitions (Props.C13.Src.src_*). Custom number patterns are read as "
+            "part of the property (its anchors name _decode_number_format; its decoration clause names zero padding, which only "
+            "they have).",
     "note": "sigfig is modelled for the call shapes used (round half-up on decimal digits); %E and round() as correctly "
             "rounded ties-to-even; the float products value*scale_factor(*100.0) of custom patterns are supplied to the model "
             "as exact decimals of their repr; the model mirrors the code after fixes/C13-*.patch.",
-    "technique": "Lean 4 proof over exact decimals + differential correspondence through the real API + numeric read-back oracle",
+    "technique": "Lean 4 proof over exact decimals (two's complement and fraction layout proved equal to their translation from the Python source) + differential correspondence through the real API + numeric read-back oracle",
 }
 ASSUMPTIONS = [
     "sigfig.round(v, 15 [,type=str]) and sigfig.round(str, decimals=p, type=str) round half-up on decimal digits and print "
@@ -342,7 +352,52 @@ def _cap_violations(ctx: Ctx, per_signature: int = 3):
     ctx.violation = violation
 
 
+def translated_source_stream(ctx):
+    """_twos_complement and _format_fraction_parts_to called directly vs the definitions translated from cell.py."""
+    import common
+    from numbers_parser.cell import _format_fraction_parts_to, _twos_complement
+    rng = ctx.rng
+    vals = list(range(1, 300)) + [2 ** k + d for k in range(1, 70) for d in (-1, 0, 1)] + \
+        [rng.randrange(1, 2 ** 62) for _ in range(2000 if ctx.quick else 50000)]
+    req, out = [], []
+    for a in vals:
+        for b in (2, 8, 16):
+            req.append(f"numfmt twos {-a} {b}")
+            try:
+                t = _twos_complement(-a, b)
+                out.append("ok " + common.enc_text(t))
+                bits = max(32, (a - 1).bit_length() + 1)
+                if int(t, b) - 2 ** bits != -a:
+                    ctx.violation("base-twos-complement-value", f"_twos_complement({-a}, {b}) = {t!r} reads {int(t, b)} - 2^{bits}",
+                                  {"value": -a, "base": b})
+            except Exception as e:  # noqa: BLE001
+                out.append("err " + common.exc_name(e))
+    for w in range(-3, 4):
+        for n in range(-4, 5):
+            for d in range(1, 5):
+                req.append(f"numfmt fracparts {w} {n} {d}")
+                try:
+                    out.append("ok " + common.enc_text(_format_fraction_parts_to(w, n, d)))
+                except Exception as e:  # noqa: BLE001
+                    out.append("err " + common.exc_name(e))
+    name = "_twos_complement / _format_fraction_parts_to called directly vs the definitions translated from the source"
+    sub = ctx.subspaces.setdefault(name, {"cases": 0, "exhaustive": False, "disagreements": 0})
+    sub["cases"] += len(req)
+    ctx.evaluations += len(req)
+    if ctx.translated_available:
+        tr = common.run_model(req, driver=common.TRDRIVER)
+        sub["translated_source_cases"] = len(req)
+        for r, a, b in zip(req, out, tr):
+            if a != b:
+                sub["disagreements"] += 1
+                if len(ctx.disagreements) < 50:
+                    ctx.disagreements.append({"subspace": name, "request": r, "impl": a, "model": b})
+    else:
+        sub["skipped_model"] = True
+
+
 def run(ctx: Ctx):
+    translated_source_stream(ctx)
     _cap_violations(ctx)
     # sigfig calls warnings.resetwarnings() on every use, so filters do not silence it
     saved = warnings.showwarning
